@@ -215,6 +215,25 @@ def run(report: Report, tier, seed):
         if len(mseen) > 3:
             break
         report.violation(Violation(key=key, what=f"misuse probe {b['job']}: {b['crash']['type']} in {b['crash']['where']}: {b['crash']['message']}"[:300], replay={"kind": "misuse", "job": b["job"]}, confirmed_native=True))
+    # recursion spill pass at every version with subroutines (v4 restores with dig, later versions with uncover)
+    from . import recspill
+    rj = recspill.jobs(tier)
+    with ProcessPoolExecutor(max_workers=16) as ex:
+        rsr = list(ex.map(recspill.case, rj, chunksize=2))
+    rcr = [r for r in rsr if r["crash"]]
+    rpb = [r for r in rsr if r["problems"]]
+    report.bounded.append(Bounded(function="pyteal.compileTeal on recursive routines of every arity (compiler/subroutines.py spillLocalSlotsDuringRecursion)",
+                                  contract="TEAL or a PyTeal error, no other exception; an accepted program computes the recurrence it describes",
+                                  bound=f"arity {recspill.ARITIES} x result uint64/none x 0..2 live locals x self/mutual recursion x versions 4..10 x default / scratch_slots / no frame pointers, depths {recspill.DEPTHS}",
+                                  cases=sum(r["ran"] for r in rsr), distinct_nontrivial=len(rj), failures=len(rcr) + len(rpb)))
+    for b in rcr[:1]:
+        c = b["crash"]
+        report.violation(Violation(key=f"crash:{c['type']}:recursion-spill", what=f"recursive routine {b['job']} (arity, result, locals, mutual) at v{c['version']} {c['setting']}: {c['type']} in {c['where']}: {c['message']}"[:300],
+                                   replay={"kind": "recspill", "job": b["job"]}, confirmed_native=True))
+    for b in rpb[:1]:
+        p0 = b["problems"][0]
+        report.violation(Violation(key=f"behaviour:recursion-spill:{b['job']}", what=f"recursive routine {b['job']} (arity, result, locals, mutual) at v{p0['version']} {p0['setting']}: {p0['what']}"[:300],
+                                   replay={"kind": "recspill", "job": b["job"]}, confirmed_native=True))
     # long programs (resource bound)
     probes = [(k, n, 6) for k in ("straight", "nested-if", "nested-add") for n in ([100, 200, 400, 800] if tier == "quick" else [100, 200, 400, 800, 1600, 3200])]
     with ProcessPoolExecutor(max_workers=8) as ex:
@@ -295,6 +314,11 @@ def replay(data):
         out = _c12.template_case(tuple(r["job"]))
         print(out["problems"][:2])
         return 1 if any(p.startswith("exception ") for p in out["problems"]) else 0
+    if r["kind"] == "recspill":
+        from . import recspill
+        out = recspill.case(tuple(r["job"]))
+        print({k: v for k, v in out.items() if k != "problems"}, [p["what"] for p in out["problems"][:2]])
+        return 1 if (out["crash"] or out["problems"]) else 0
     if r["kind"] == "shared":
         from . import shared_objs
         out = shared_objs.case(tuple(r["job"]))
